@@ -346,6 +346,23 @@ func c12RandNest(r *SplitMix, depth int) string {
 var c12Runes = []rune{'a', 'z', 0, 0x7f, 0x80, 0xe9, 0x7ff, 0x800, 0x20ac, 0xd7ff, 0xe000, 0xfffd, 0xffff, 0x10000, 0x1f600, 0x10ffff}
 
 func genC12(g *Gen) {
+	// long inputs (lengths incl. thresholds a change introduced into the source)
+	for li, n := range longLens(g.Thorough()) {
+		if !g.Mine() {
+			continue
+		}
+		s := longSlice(n, li)
+		var ops []string
+		for _, o := range c12SliceOps(s, 3, 2, []int{5}) {
+			if !strings.HasPrefix(o, "reduce r1 ") { // 2*acc+v leaves the no-overflow domain on long inputs
+				ops = append(ops, o)
+			}
+		}
+		ops = append(ops, "chunk "+ints(s)+" "+itoa(n-1), "chunk "+ints(s)+" "+itoa(n), "chunk "+ints(s)+" "+itoa(n/2+1),
+			"chunk "+ints(s)+" 64", "drop "+ints(s)+" "+itoa(n-1), "drop "+ints(s)+" "+itoa(-n+1), "drop "+ints(s)+" "+itoa(n/2),
+			"merge "+plist([]string{ints(s), ints(longSlice(n/3, li+2)), ints(s[:n/2])}))
+		g.Emit("c12", nil, ops)
+	}
 	maxLen, maxChunk, maxDrop := 6, 8, 9
 	alphabet := []int{-3, -1, 0, 2, 3}
 	if g.Thorough() {
